@@ -176,7 +176,17 @@ func (o *FilterOptimizer) optimizeInExpr(e *BinaryOpExpr) *ScanType {
 				case *StringExpr:
 					// Can calculate in optimize step
 					key := []byte(item.Data)
-					keys = append(keys, key)
+					// A key listed twice should be read only once
+					duplicated := false
+					for _, k := range keys {
+						if bytes.Equal(k, key) {
+							duplicated = true
+							break
+						}
+					}
+					if !duplicated {
+						keys = append(keys, key)
+					}
 				default:
 					canUseMget = false
 					break
